@@ -2,7 +2,7 @@
     Property theorems only; every proof is [exact lemma]. *)
 From Coq Require Import List ZArith NArith Bool.
 From UV Require Import Model.Node Model.Sig Model.Exec Model.RoutePack Proofs.Routing Proofs.IterSpec.
-From UV Require Import Model.Prims Model.Kernels Proofs.KernelsBase Proofs.KernelsAtoms Proofs.Kernels.
+From UV Require Import Model.Prims Model.Kernels Proofs.KernelsBase Proofs.KernelsAtoms Proofs.Kernels Proofs.KernelsReduce Proofs.KernelsTranspose.
 Import ListNotations.
 
 (** * the depth kernels selected by f_mon_fast_fn equal the definition *)
@@ -53,6 +53,28 @@ Theorem C07_rows_rows_compose : forall (F G : arr -> res arr) x n s ys y0,
   Forall (fun r => wf r /\ ash r = ash y0 /\ aty r = aty y0) (y0 :: ys) ->
   rows_def (fun r => y <- F r ;; G y) x = (y <- rows_def F x ;; rows_def G y).
 Proof. exact rows_rows_compose. Qed.
+(** transpose at a depth (monadic/mod.rs transpose_depth; what `≡⍉`, `≡≡⍉` run) is d nested rows of
+    transpose on every well-formed array whose mapped axes are non-empty; over an empty mapped axis it
+    keeps the mapped lengths; end to end the interpreter's rows^(k+1) of transpose is the definition *)
+Theorem C07_transpose_depth_eq_rows : forall d x, wf x -> lead_pos d (ash x) ->
+  run_katom KTrans d x = rows_iter d (sem FTrans) x.
+Proof. exact transpose_depth_eq_rows. Qed.
+Theorem C07_transpose_depth_empty_lead : forall d x i, wf x -> d <= length (ash x) ->
+  first_zero (firstn d (ash x)) = Some i ->
+  exists y, run_katom KTrans d x = Ok y /\ firstn (S i) (ash y) = firstn (S i) (ash x).
+Proof. exact transpose_depth_empty_lead. Qed.
+Theorem C07_exec_rows_transpose_eq : forall k x, wf x -> lead_pos (S k) (ash x) ->
+  exec_mfn (rowsk (S k) FTrans) x = sem (rowsk (S k) FTrans) x.
+Proof. exact exec_rows_transpose_eq. Qed.
+(** the typed reduction at a depth (reduce.rs fast_reduce; what `≡/+`, `≡≡/↥` ... are fused into) is d
+    nested rows of the same reduction, for every well-formed array of any element type and rank whose
+    mapped axes are non-empty; and what the interpreter runs for rows^(k+1) of `/o` on numbers is that *)
+Theorem C07_reduce_depth_eq_rows : forall o d x, wf x -> lead_pos d (ash x) ->
+  k_reduce_num o d x = rows_iter d (k_reduce_num o 0) x.
+Proof. exact reduce_depth_eq_rows. Qed.
+Theorem C07_exec_rows_reduce_num : forall o k x, aty x = TNum -> wf x -> lead_pos (S k) (ash x) ->
+  exec_mfn (rowsk (S k) (FReduce o)) x = rows_iter (S k) (k_reduce_num o 0) x.
+Proof. exact exec_rows_reduce_num. Qed.
 (** the repaired min/max shortcut is never taken under rows *)
 Theorem C07_reduce_minmax_shortcut_repaired : forall su o d x,
   k_reduce_minmax false su o (S d) x = k_reduce_num o (S d) x.
@@ -241,6 +263,11 @@ Print Assumptions C07_box_kernel_wf.
 Print Assumptions C07_rows_increments_depth.
 Print Assumptions C07_exec_rows_atom_eq.
 Print Assumptions C07_rows_rows_compose.
+Print Assumptions C07_transpose_depth_eq_rows.
+Print Assumptions C07_transpose_depth_empty_lead.
+Print Assumptions C07_exec_rows_transpose_eq.
+Print Assumptions C07_reduce_depth_eq_rows.
+Print Assumptions C07_exec_rows_reduce_num.
 Print Assumptions C07_reduce_minmax_shortcut_repaired.
 Print Assumptions C07_reduce_minmax_shortcut_refuted_pre.
 Print Assumptions C07_inventory_pervasive_boxes.
